@@ -46,6 +46,8 @@ type row struct {
 	params   string
 	ret      string
 	throw    string
+	retset   string // acceptable runtime classes of the result: names, self, void, never, * (= anything)
+	throwset string
 	found    int
 	rkind    string // native bytecode getter setter other none
 	pc       int
@@ -249,6 +251,8 @@ func declRow(kind, ns, nskind string, concrete bool, name string, m *types.Metho
 	}
 	r.params = strings.Join(ps, "\x1e")
 	r.ret = clean(types.Inspect(m.ReturnType))
+	r.retset = strings.Join(typeSet(m.ReturnType, true), ",")
+	r.throwset = strings.Join(typeSet(m.ThrowType, false), ",")
 	if m.ThrowType == nil {
 		r.throw = "never"
 	} else {
@@ -257,8 +261,108 @@ func declRow(kind, ns, nskind string, concrete bool, name string, m *types.Metho
 	return r
 }
 
+// typeSet: the simple structural denotation used by c28.calls: class / mixin names (a runtime class is a
+// member when it or one of its type-level ancestors is listed), "*" = anything (any, type parameters,
+// interfaces - structural -, closures, intersections, singleton types), "self", "void", "never".
+func typeSet(t types.Type, ret bool) []string {
+	set := map[string]bool{}
+	var walk func(t types.Type, depth int)
+	walk = func(t types.Type, depth int) {
+		if depth > 12 {
+			set["*"] = true
+			return
+		}
+		switch x := t.(type) {
+		case nil:
+			if ret {
+				set["void"] = true
+			} else {
+				set["never"] = true
+			}
+		case types.Void:
+			set["void"] = true
+		case types.Never:
+			set["never"] = true
+		case types.Any, types.Untyped:
+			set["*"] = true
+		case types.Self:
+			set["self"] = true
+		case types.Nil:
+			set["Std::Nil"] = true
+		case types.Bool:
+			set["Std::True"] = true
+			set["Std::False"] = true
+		case types.True:
+			set["Std::True"] = true
+		case types.False:
+			set["Std::False"] = true
+		case *types.Nilable:
+			set["Std::Nil"] = true
+			walk(x.Type, depth+1)
+		case *types.Union:
+			for _, e := range x.Elements {
+				walk(e, depth+1)
+			}
+		case *types.NamedType:
+			walk(x.Type, depth+1)
+		case *types.Generic:
+			walk(x.Namespace, depth+1)
+		case *types.Class:
+			if x.Name() == "Std::Bool" {
+				set["Std::True"] = true
+				set["Std::False"] = true
+			}
+			set[x.Name()] = true
+		case *types.Mixin:
+			set[x.Name()] = true
+		case *types.MixinProxy:
+			set[x.Name()] = true
+		case *types.Module:
+			set[x.Name()] = true
+		default:
+			set["*"] = true
+		}
+	}
+	walk(t, 0)
+	var out []string
+	for k := range set {
+		out = append(out, k)
+	}
+	sort.Strings(out)
+	return out
+}
+
+// type-level ancestors (superclasses and included mixins) of every class / mixin
+var ancestors = map[string][]string{}
+
+func recordAncestors(n types.Namespace, full string) {
+	var a []string
+	seen := map[string]bool{}
+	for p := range types.Parents(n) {
+		name := ""
+		switch q := p.(type) {
+		case *types.Class:
+			name = q.Name()
+		case *types.Mixin:
+			name = q.Name()
+		case *types.MixinProxy:
+			name = q.Name()
+		case *types.Generic:
+			name = q.Namespace.Name()
+		case *types.MixinWithWhere:
+			name = q.Name()
+		}
+		if name != "" && name != full && !seen[name] {
+			seen[name] = true
+			a = append(a, name)
+		}
+	}
+	ancestors[full] = a
+}
+
 var rows []row
 var mixinReport []string
+var runtimeAnc []string
 
 func isConcrete(n types.Namespace) bool {
 	switch t := n.(type) {
@@ -277,6 +381,10 @@ func walk(n types.Namespace, seen map[types.Namespace]bool) {
 	seen[n] = true
 	full := n.Name()
 	if full != "" && full != "Root" {
+		switch n.(type) {
+		case *types.Class, *types.Mixin:
+			recordAncestors(n, full)
+		}
 		emitNamespace(n, full, false)
 		if s := n.Singleton(); s != nil {
 			emitNamespace(s, full, true)
@@ -346,6 +454,12 @@ func emitNamespace(n types.Namespace, full string, singleton bool) {
 				}
 			}
 		}
+		var rnames []string
+		for k := range rt {
+			rnames = append(rnames, k)
+		}
+		sort.Strings(rnames)
+		runtimeAnc = append(runtimeAnc, full+"\t"+strings.Join(rnames, ","))
 		sort.Strings(tm)
 		for _, mname := range tm {
 			if !rt[mname] {
@@ -468,8 +582,12 @@ func lookupType(env *types.GlobalEnvironment, full string) (ns types.Namespace, 
 	return cur, nil
 }
 
-func coqStr(s string) string {
-	return "\"" + strings.ReplaceAll(s, "\"", "\"\"") + "\""
+// text that is safe inside a Coq comment
+func commentSafe(s string) string {
+	s = strings.ReplaceAll(s, "\"", "'")
+	s = strings.ReplaceAll(s, "(*", "( *")
+	s = strings.ReplaceAll(s, "*)", "* )")
+	return s
 }
 
 func key(r row) string { return r.kind + ":" + r.ns + "#" + r.name }
@@ -499,9 +617,20 @@ func main() {
 			if r.concrete {
 				c = 1
 			}
-			fmt.Fprintf(w, "ROW\t%s\t%s\t%s\t%d\t%s\t%s\t%s\t%d\t%d\t%d\t%d\t%d\t%d\t%s\t%s\t%s\t%d\t%s\t%d\t%d\t%s\n",
+			fmt.Fprintf(w, "ROW\t%s\t%s\t%s\t%d\t%s\t%s\t%s\t%d\t%d\t%d\t%d\t%d\t%d\t%s\t%s\t%s\t%d\t%s\t%d\t%d\t%s\t%s\t%s\n",
 				r.kind, r.ns, r.nskind, c, r.name, r.declIn, r.flags, r.req, r.opt, r.rest, r.post, r.nrest, r.total,
-				r.params, r.ret, r.throw, r.found, r.rkind, r.pc, r.opc, r.rwhere)
+				r.params, r.ret, r.throw, r.found, r.rkind, r.pc, r.opc, r.rwhere, r.retset, r.throwset)
+		}
+		var an []string
+		for k := range ancestors {
+			an = append(an, k)
+		}
+		sort.Strings(an)
+		for _, k := range an {
+			fmt.Fprintf(w, "ANC\t%s\t%s\n", k, strings.Join(ancestors[k], ","))
+		}
+		for _, m := range runtimeAnc {
+			fmt.Fprintf(w, "RANC\t%s\n", m)
 		}
 		for _, m := range mixinReport {
 			fmt.Fprintf(w, "MIXIN\t%s\n", m)
@@ -511,18 +640,17 @@ func main() {
 		}
 	case "coq":
 		var excList []string
-		for _, r := range rows {
+		for i, r := range rows {
 			if !compatible(r) {
-				excList = append(excList, key(r))
+				excList = append(excList, fmt.Sprintf("%d%%N (* %s *)", i, commentSafe(key(r))))
 			}
 		}
 		fmt.Fprintln(w, "(* GENERATED by harness/cmd/c28gen from the live type environment and runtime classes of /repo. Do not edit. *)")
-		fmt.Fprintln(w, "From Coq Require Import String List.")
+		fmt.Fprintln(w, "From Coq Require Import List NArith.")
 		fmt.Fprintln(w, "From Elk Require Import Model.C28_Arity.")
 		fmt.Fprintln(w, "Import ListNotations.")
-		fmt.Fprintln(w, "Open Scope string_scope.")
 		fmt.Fprintln(w, "")
-		fmt.Fprintln(w, "(* mkRow key (mkDecl required optional rest? named-rest? abstract? concrete? init?) (mkRt found? kind parameterCount optionalParameterCount) *)")
+		fmt.Fprintln(w, "(* mkRow index (mkDecl required optional rest? named-rest? abstract? concrete? init?) (mkRt found? kind parameterCount optionalParameterCount) *)")
 		fmt.Fprintln(w, "Definition rows : list row := [")
 		b := func(x bool) string {
 			if x {
@@ -548,23 +676,24 @@ func main() {
 			case "none":
 				rk = "RNone"
 			}
-			fmt.Fprintf(w, "  mkRow %s (mkDecl %d %d %s %s %s %s %s) (mkRt %s %s %d %d)%s\n",
-				coqStr(key(r)),
+			fmt.Fprintf(w, "  mkRow %d%%N (mkDecl %d %d %s %s %s %s %s) (mkRt %s %s %d %d)%s (* %s *)\n",
+				i,
 				r.req, r.opt, b(r.rest == 1), b(r.nrest == 1), b(strings.Contains(r.flags, "a")), b(r.concrete), b(r.name == "#init"),
-				b(r.found == 1), rk, r.pc, r.opc, sep)
+				b(r.found == 1), rk, r.pc, r.opc, sep, commentSafe(key(r)))
 		}
 		fmt.Fprintln(w, "].")
 		fmt.Fprintln(w, "")
 		fmt.Fprintln(w, "(* keys of the rows the HARNESS's own compatibility test rejects, in row order; Props/C28.v proves that")
 		fmt.Fprintln(w, "   this is exactly the list the Coq definition `compatible` rejects. checks/C28.py requires every one of")
 		fmt.Fprintln(w, "   them to be a recorded known finding. *)")
-		fmt.Fprintln(w, "Definition exceptions : list string := [")
+		fmt.Fprintln(w, "Definition exceptions : list N := [")
 		for i, k := range excList {
 			sep := ";"
 			if i == len(excList)-1 {
 				sep = ""
 			}
-			fmt.Fprintf(w, "  %s%s\n", coqStr(k), sep)
+			p := strings.SplitN(k, " ", 2)
+			fmt.Fprintf(w, "  %s%s %s\n", p[0], sep, p[1])
 		}
 		fmt.Fprintln(w, "].")
 	}
